@@ -132,10 +132,10 @@ func (d *drv) hookFaults() {
 			ft = storage.TypeManifest
 		}
 		d.opCount[op.Kind.String()+":"+vt.FtName(ft)]++
-		if bg := d.curBg; bg != "" && ft == storage.TypeTable && (op.Kind.Mutating() || op.Kind == vt.OpRead) && len(d.hot[bg]) < 120 {
+		if bg := d.curBg; bg != "" && ft == storage.TypeTable && (op.Kind.Mutating() || op.Kind == vt.OpRead || op.Kind == vt.OpClose) && len(d.hot[bg]) < 160 {
 			d.hot[bg] = append(d.hot[bg], fmt.Sprintf("%s:%s:%d", op.Kind, vt.FtName(ft), d.opCount[op.Kind.String()+":"+vt.FtName(ft)]))
 		}
-		if cc := d.curCall; cc != "" && op.Kind.Mutating() || cc != "" && (op.Kind == vt.OpOpen || op.Kind == vt.OpRead) {
+		if cc := d.curCall; cc != "" && op.Kind.Mutating() || cc != "" && (op.Kind == vt.OpOpen || op.Kind == vt.OpRead || op.Kind == vt.OpClose) {
 			if len(d.hot[cc]) < 60 {
 				d.hot[cc] = append(d.hot[cc], fmt.Sprintf("%s:%s:%d", op.Kind, vt.FtName(ft), d.opCount[op.Kind.String()+":"+vt.FtName(ft)]))
 			}
@@ -1772,6 +1772,10 @@ func main() {
 				if c.SourceLevel >= 1 && !c.Trivial {
 					d.fmu.Lock()
 					d.curBg = "deepcompaction"
+					d.fmu.Unlock()
+				} else if !c.Trivial {
+					d.fmu.Lock()
+					d.curBg = "l0compaction"
 					d.fmu.Unlock()
 				}
 			},
